@@ -132,6 +132,17 @@ MUTANTS = [
   };''', '''      (void)t;
     }
   };'''),
+    ('M32', 'C12', L, '  atomic<bool>       died{false};', '  bool               died{false};'),
+    ('M33', 'C12', M, '''    void decommission()
+    {
+      auto lock = get_lock();''', '''    void decommission()
+    {'''),
+    ('M34', 'C12', S, '''    {
+      auto lock = get_lock();
+      seq->add_last(this);''', '''    {
+      seq->add_last(this);'''),
+    ('M35', 'C12', M, '''      auto lock = get_lock();
+      return sequences->is_saturated();''', '''      return sequences->is_saturated();'''),
 ]
 
 
